@@ -5599,8 +5599,12 @@ int32_t matrixSslEncodeClientHello(ssl_t *ssl, sslBuf_t *out,
         if (ssl->haveCookie)
         {
             *c = (unsigned char) ssl->cookieLen; c++;
-            Memcpy(c, ssl->cookie, ssl->cookieLen);
-            c += ssl->cookieLen;
+            if (ssl->cookieLen > 0)
+            {
+                /* (an empty cookie has no buffer: ssl->cookie is NULL) */
+                Memcpy(c, ssl->cookie, ssl->cookieLen);
+                c += ssl->cookieLen;
+            }
         }
         else
         {
